@@ -7,6 +7,7 @@ package c17
 import (
 	"bytes"
 	"fmt"
+	"math/bits"
 	"os"
 	"path/filepath"
 	"sort"
@@ -127,9 +128,27 @@ type gen struct {
 	budget int
 }
 
-func (g *gen) n(lo, hi int) int        { return rapid.IntRange(lo, hi).Draw(g.t, "n") }
-func (g *gen) coin(pct int) bool       { return rapid.IntRange(0, 99).Draw(g.t, "p") < pct }
-func (g *gen) pick(xs []string) string { return xs[rapid.IntRange(0, len(xs)-1).Draw(g.t, "i")] }
+// uni draws a (nearly) uniform integer in [0,n). rapid's integer generators are biased
+// towards small values on purpose (IntRange(0,99) yields 0 ten times as often as 99),
+// which starves the later alternatives of a categorical choice; single bits are not
+// biased, and still shrink towards 0, i.e. towards the first alternative.
+func uni(t *rapid.T, n int) int {
+	if n <= 1 {
+		return 0
+	}
+	v := 0
+	// 3 spare bits keep the modulo bias below 1/8
+	for i := 0; i < bits.Len(uint(n-1))+3; i++ {
+		if rapid.Bool().Draw(t, "u") {
+			v |= 1 << uint(i)
+		}
+	}
+	return v % n
+}
+
+func (g *gen) n(lo, hi int) int        { return lo + uni(g.t, hi-lo+1) }
+func (g *gen) coin(pct int) bool       { return uni(g.t, 100) < pct }
+func (g *gen) pick(xs []string) string { return xs[uni(g.t, len(xs))] }
 func (g *gen) w(s string)              { g.sb.WriteString(s) }
 
 var idents = []string{"a", "b", "c", "foo", "bar_baz", "var", "local", "each", "self", "x1", "_u", "k", "v", "i",
@@ -638,8 +657,8 @@ func (g *gen) jsonValue(d int) {
 
 // genGrammar produces a syntactically plausible source of the given kind.
 func genGrammar(t *rapid.T, kind string) []byte {
-	g := &gen{t: t, budget: rapid.IntRange(3, 60).Draw(t, "budget")}
-	d := rapid.IntRange(1, 5).Draw(t, "depth")
+	g := &gen{t: t, budget: 3 + uni(t, 58)}
+	d := 1 + uni(t, 5)
 	switch kind {
 	case "config":
 		g.body(d, "")
@@ -693,7 +712,7 @@ func pos(t *rapid.T, n int) int {
 	if n <= 0 {
 		return 0
 	}
-	return rapid.IntRange(0, n).Draw(t, "pos")
+	return uni(t, n+1)
 }
 
 func mutate(t *rapid.T, b []byte, kind string, other func() []byte) []byte {
@@ -701,16 +720,16 @@ func mutate(t *rapid.T, b []byte, kind string, other func() []byte) []byte {
 	switch kind {
 	case "flip":
 		if len(b) == 0 {
-			return []byte{rapid.Byte().Draw(t, "byte")}
+			return []byte{byte(uni(t, 256))}
 		}
 		out := append([]byte(nil), b...)
 		k := rapid.IntRange(1, 3).Draw(t, "nflip")
 		for i := 0; i < k; i++ {
-			p := rapid.IntRange(0, len(out)-1).Draw(t, "pos")
+			p := uni(t, len(out))
 			if rapid.Bool().Draw(t, "bit") {
-				out[p] ^= 1 << uint(rapid.IntRange(0, 7).Draw(t, "bitno"))
+				out[p] ^= 1 << uint(uni(t, 8))
 			} else {
-				out[p] = rapid.Byte().Draw(t, "byte")
+				out[p] = byte(uni(t, 256))
 			}
 		}
 		return out
@@ -718,14 +737,14 @@ func mutate(t *rapid.T, b []byte, kind string, other func() []byte) []byte {
 		if len(b) == 0 {
 			return b
 		}
-		p := rapid.IntRange(0, len(b)-1).Draw(t, "pos")
+		p := uni(t, len(b))
 		l := rapid.IntRange(1, min(len(b)-p, 16)).Draw(t, "len")
 		return append(append([]byte(nil), b[:p]...), b[p+l:]...)
 	case "dup":
 		if len(b) == 0 {
 			return b
 		}
-		p := rapid.IntRange(0, len(b)-1).Draw(t, "pos")
+		p := uni(t, len(b))
 		l := rapid.IntRange(1, min(len(b)-p, 32)).Draw(t, "len")
 		out := append([]byte(nil), b[:p+l]...)
 		out = append(out, b[p:p+l]...)
@@ -735,13 +754,29 @@ func mutate(t *rapid.T, b []byte, kind string, other func() []byte) []byte {
 		if len(b) == 0 {
 			return b
 		}
-		p := rapid.IntRange(0, len(b)-1).Draw(t, "pos")
+		p := uni(t, len(b))
 		l := rapid.IntRange(1, min(len(b)-p, 64)).Draw(t, "len")
 		maxRep := (limit - len(b)) / l
 		if maxRep < 1 {
 			return b
 		}
-		k := rapid.IntRange(1, min(maxRep, 4096)).Draw(t, "reps")
+		// nesting depth is the business of sub-check (b): the repetition count is capped so
+		// that repeating a chunk with openers in it stays within the same depth bound
+		openers := 1
+		for _, ch := range b[p : p+l] {
+			switch ch {
+			case '(', '[', '{', '"', '-', '!', '?':
+				openers++
+			}
+		}
+		maxRep = min(maxRep, 4096, deepMax/openers)
+		if maxRep < 1 {
+			return b
+		}
+		k := 1 + uni(t, maxRep)
+		if rapid.Bool().Draw(t, "fewreps") {
+			k = rapid.IntRange(1, maxRep).Draw(t, "reps")
+		}
 		out := append([]byte(nil), b[:p]...)
 		for i := 0; i < k; i++ {
 			out = append(out, b[p:p+l]...)
@@ -749,7 +784,7 @@ func mutate(t *rapid.T, b []byte, kind string, other func() []byte) []byte {
 		return append(out, b[p:]...)
 	case "insert":
 		p := pos(t, len(b))
-		tok := insertTokens[rapid.IntRange(0, len(insertTokens)-1).Draw(t, "tok")]
+		tok := insertTokens[uni(t, len(insertTokens))]
 		out := append([]byte(nil), b[:p]...)
 		out = append(out, tok...)
 		return append(out, b[p:]...)
@@ -757,12 +792,12 @@ func mutate(t *rapid.T, b []byte, kind string, other func() []byte) []byte {
 		return append([]byte(nil), b[:pos(t, len(b))]...)
 	case "badutf8":
 		p := pos(t, len(b))
-		bad := badUTF8[rapid.IntRange(0, len(badUTF8)-1).Draw(t, "bad")]
+		bad := badUTF8[uni(t, len(badUTF8))]
 		out := append([]byte(nil), b[:p]...)
 		out = append(out, bad...)
 		return append(out, b[p:]...)
 	case "bom":
-		switch rapid.IntRange(0, 3).Draw(t, "bomkind") {
+		switch uni(t, 4) {
 		case 0, 1:
 			return append(append([]byte(nil), bom...), b...)
 		case 2:
@@ -774,7 +809,7 @@ func mutate(t *rapid.T, b []byte, kind string, other func() []byte) []byte {
 			return append(out, b[p:]...)
 		}
 	case "crlf":
-		switch rapid.IntRange(0, 3).Draw(t, "crlfkind") {
+		switch uni(t, 4) {
 		case 0:
 			return bytes.ReplaceAll(b, []byte("\n"), []byte("\r\n"))
 		case 1:
@@ -820,12 +855,12 @@ var grammarKinds = []string{"config", "expr", "template", "traversal", "json"}
 // genCase: sub-check (a).
 func genCase(t *rapid.T) Case {
 	var c Case
-	c.Entry = allEntries[rapid.IntRange(0, len(allEntries)-1).Draw(t, "entry")]
-	cls := rapid.IntRange(0, 99).Draw(t, "class")
+	c.Entry = allEntries[uni(t, len(allEntries))]
+	cls := uni(t, 100)
 	kind := kindFor(c.Entry)
-	if rapid.IntRange(0, 99).Draw(t, "cross") < 12 {
+	if uni(t, 100) < 12 {
 		// occasionally feed one syntax to another entry point
-		kind = grammarKinds[rapid.IntRange(0, len(grammarKinds)-1).Draw(t, "xkind")]
+		kind = grammarKinds[uni(t, len(grammarKinds))]
 	}
 	base := func() []byte {
 		var cands []int
@@ -837,13 +872,13 @@ func genCase(t *rapid.T) Case {
 		if len(cands) == 0 {
 			return genGrammar(t, kind)
 		}
-		return corpus[cands[rapid.IntRange(0, len(cands)-1).Draw(t, "file")]].data
+		return corpus[cands[uni(t, len(cands))]].data
 	}
 	switch {
 	case cls < 12:
 		c.Gen = "random"
 		n := rapid.IntRange(0, 64).Draw(t, "rlen")
-		if rapid.IntRange(0, 19).Draw(t, "big") == 0 {
+		if uni(t, 20) == 0 {
 			n = rapid.IntRange(0, min(maxLen(), 4096)).Draw(t, "rlenbig")
 		}
 		// bytes biased towards the characters the scanners branch on
@@ -851,9 +886,9 @@ func genCase(t *rapid.T) Case {
 		out := make([]byte, n)
 		for i := range out {
 			if rapid.Bool().Draw(t, "ascii") {
-				out[i] = alphabet[rapid.IntRange(0, len(alphabet)-1).Draw(t, "a")]
+				out[i] = alphabet[uni(t, len(alphabet))]
 			} else {
-				out[i] = rapid.Byte().Draw(t, "b")
+				out[i] = byte(uni(t, 256))
 			}
 		}
 		c.Src = out
@@ -865,12 +900,12 @@ func genCase(t *rapid.T) Case {
 		c.Gen = "corpus"
 		c.Src = append([]byte(nil), base()...)
 	}
-	nm := rapid.IntRange(0, 3).Draw(t, "nmut")
+	nm := uni(t, 4)
 	if c.Gen == "corpus" && nm == 0 {
 		nm = 1
 	}
 	for i := 0; i < nm; i++ {
-		k := mutKinds[rapid.IntRange(0, len(mutKinds)-1).Draw(t, "mut")]
+		k := mutKinds[uni(t, len(mutKinds))]
 		c.Src = mutate(t, c.Src, k, func() []byte {
 			if rapid.Bool().Draw(t, "spliceFromCorpus") {
 				return base()
@@ -975,19 +1010,19 @@ func wrapForEntry(entry string, src []byte) []byte {
 }
 
 func genDeep(t *rapid.T) Case {
-	k := deepKinds[rapid.IntRange(0, len(deepKinds)-1).Draw(t, "kind")]
+	k := deepKinds[uni(t, len(deepKinds))]
 	entries := k.entries
 	if entries == nil {
 		entries = nativeExprEntries
 	}
-	entry := entries[rapid.IntRange(0, len(entries)-1).Draw(t, "entry")]
+	entry := entries[uni(t, len(entries))]
 	depth := rapid.OneOf(
 		rapid.SampledFrom([]int{1, 2, 10, 100, 500, 1000, 2500, deepMax}),
 		rapid.IntRange(1, deepMax),
 		rapid.IntRange(1, 200),
 	).Draw(t, "depth")
 	closeN := depth
-	switch rapid.IntRange(0, 5).Draw(t, "closing") {
+	switch uni(t, 6) {
 	case 0:
 		closeN = 0
 	case 1:
